@@ -3,6 +3,7 @@
  * EXPECT-FAIL: TAB3 print_value
  * EXPECT-FAIL: C12S cJSON_Compare
  * EXPECT-FAIL: C12N cJSON_Compare
+ * EXPECT-FAIL: SHP5 cJSON_Compare
  * EXPECT-FAIL: EFF6 cJSON_Compare
  * EXPECT-FAIL: EFF6 get_object_item
  * EXPECT-FAIL: LST4 cJSON_GetArraySize
